@@ -42,7 +42,8 @@ EXPLANATION = (
     "constant. (E4) create_connection and the response future are awaited only inside "
     "asyncio.wait_for(..., timeout=self.timeout); from a successful connection every path to "
     "any exit closes the transport. (E5/E6) sibling agreement and chunk non-interference. "
-    "(E1b) connection_lost evaluated abstractly with exc set, or a clean close before any header, ends in set_exception on every feasible path. (E6) The C07.S3 segmentation rule set on both client data_received methods, including limit consistency between unterminated buffer and complete line."
+    "(E1b) connection_lost evaluated abstractly with exc set, or a clean close before any header, ends in set_exception on every feasible path. (E6) The C07.S3 segmentation rule set on both client data_received methods, including limit consistency between unterminated buffer and complete line. "
+    "(E1, ctors) a package constructor's raise-set is what its __init__/__post_init__ raises."
 )
 
 PROTOS = ["client.protocol:GeminiClientProtocol", "client.protocol:TitanClientProtocol"]
